@@ -52,7 +52,7 @@ FamsT == << Fam(1, 1, Mats(1, 1, {-3, -2, -1, 1, 2, 3}), {1, 2, 3}, -3..3),
 FamsQ == << Fam(1, 1, Mats(1, 1, {-3, -2, -1, 1, 2, 3}), {1, 2, 3}, -3..3),
             Fam(2, 1, Mats(2, 1, {-1, 0, 2}), {0, 1, 3}, {-2, 1}),
             Fam(3, 1, Mats(3, 1, {-1, 2}), {0, 1, 2}, {-2, 3}),
-            Fam(2, 2, Mats(2, 2, {-1, 0, 1, 2}), {1, 2}, {-1, 2}),
+            Fam(2, 2, Mats(2, 2, {-1, 0, 2}), {1, 2, 3}, {-1, 2}),
             Fam(3, 2, D23q, {0, 1, 2}, {-2, 0, 3}),
             Fam(4, 3, {Quad(<<-1, 0, 1, 2>>), << <<1, 1, 0>>, <<0, 1, 1>>, <<1, 0, 1>>, <<1, -1, 1>> >>}, {0, 1, 2}, {-1, 2}),
             Fam(5, 3, {Quad(<<-1, 0, 1, 2, 0>>)}, {0, 1}, {-1, 1}) >>
@@ -74,8 +74,8 @@ WlsSeedStep == /\ c.kind = "wseed"
                /\ exp' = NoExp
 WlsCaseStep == /\ c.kind = "wseed2"
                /\ \E b \in [1..Fams[c.f].n -> Fams[c.f].bv] : c' = MkWLS(c.A, b, c.s)
-               /\ exp' = ExpectedWLS(c') @@ [nat |-> NatScale(c'.A, c'.b, c'.s),
-                                              natz |-> NatScale(c'.A, ModelOf(c'.A, SubSeq(ShiftZ, 1, Cols(c'.A))), c'.s)]
+               /\ exp' = ExpectedWLS(c') @@ [nat |-> NatPieces(c'.A, c'.b, c'.s),
+                                              natz |-> NatPieces(c'.A, ModelOf(c'.A, SubSeq(ShiftZ, 1, Cols(c'.A))), c'.s)]
 
 (* ------------------------------------------------------------------------------------- *)
 (* pcomp family                                                                           *)
@@ -193,8 +193,9 @@ C15a_DofCountsWeighted == IsWLS => DofCountsWeighted(c.A, W_, exp)
 C15a_NormalPosDef == IsWLS => NormalPosDef(c.A, W_)
 C15a_NoBetterNeighbour == IsWLS => NoBetterNeighbour(c.A, c.b, W_, exp)
 C15a_ZeroWeightIgnored == IsWLS => ZeroWeightIgnored(c.A, c.b, W_, exp)
-C15a_ScaleBoundsSolution == IsWLS => ScaleBoundsSolution(c.A, c.b, W_)
-C15a_ScaleHomogeneous == IsWLS => ScaleHomogeneous(c.A, c.b, c.s, 2)
+(* (the rational evaluation of the scale stays inside 32 bits for one and two columns) *)
+C15a_ScaleBoundsSolution == (IsWLS /\ Cols(c.A) <= 2) => ScaleBoundsSolution(c.A, c.b, W_)
+C15a_ScaleHomogeneous == (IsWLS /\ Cols(c.A) <= 2) => ScaleHomogeneous(c.A, c.b, c.s, 2)
 C15a_LayoutIndependent == IsWLS => LayoutIndependent(c)
 C15a_HomogeneousInB == IsWLS => HomogeneousInB(c.A, c.b, c.s, exp, 2)
 C15a_HomogeneousInS == IsWLS => HomogeneousInS(c.A, c.b, c.s, exp, 2)
